@@ -33,6 +33,10 @@ func (cc *caseCheck) run(u *Unit) {
 		curCase = c
 		t0 := time.Now()
 		res := Execute(c)
+		if d := os.Getenv("VERIF_DUMPCASES"); d != "" {
+			os.WriteFile(fmt.Sprintf("%s/case-%d-%d.json", d, u.Index, j), mustJSON(c), 0o644)
+			fmt.Fprintf(os.Stderr, "CASE %d.%d hash=%s l1max=%d shard=%d rates=%v maxrand=%d policy=%s fired=%d stores=%+v\n", u.Index, j, res.Hash, c.L1Max, c.Shard, c.Rates, c.MaxRand, c.Policy, len(res.Sim.Fired), c.Stores)
+		}
 		if d := time.Since(t0); d > 10*time.Second {
 			fmt.Fprintf(os.Stderr, "SLOW-RUN: %s unit %d case seed %d took %v, steps %d, sim %.0fs, stepcap=%v\n", cc.id, u.Index, c.Seed, d, res.Steps, res.Sim.Elapsed().Seconds(), res.Sim.StepCapHit)
 		}
